@@ -14,8 +14,10 @@
      * mk_copy()        = [OCopy]:     copy.copy, all nested objects shared       (mkcopy_deep = false: today)
                                        nested objects deep-copied                  (mkcopy_deep = true: repaired)
      * copy.deepcopy    = [ODeepCopy]
-     * dst.update_from_other_container(src) = [OUpdate]: every field of dst becomes copy.copy(src field):
-                                       one level fresh, everything below shared with src (unchanged by the repair)
+     * dst.update_from_other_container(src) = [OUpdate]: every field of dst becomes copy.copy(getattr(src, name)):
+                                       one level fresh, everything below shared with src (unchanged by the repair);
+                                       getattr substitutes the IMPLIED value of a property whose value is None,
+                                       which the operation carries as an explicit list of overrides
      * x.a.b.c = v      = [OWrite]:    follows references from an instance, overwrites one field of the object
                                        reached with an immutable value.
    The heap is an append-only list of cells; a cell only ever refers to OLDER cells (every operation allocates
@@ -128,6 +130,18 @@ Definition shallow_p (h : heap) (v : fval) : ptree :=
              end
   end.
 
+(* fields of dst after update_from_other_container: override (implied value) or copy.copy of the source field *)
+Fixpoint upd_list (h : heap) (ov : list (option Z)) (rec : cell) {struct rec} : list ptree :=
+  match rec with
+  | [] => []
+  | v :: r =>
+      match ov with
+      | Some z :: ro => PImm z :: upd_list h ro r
+      | None :: ro => shallow_p h v :: upd_list h ro r
+      | [] => shallow_p h v :: upd_list h [] r
+      end
+  end.
+
 Fixpoint set_nth {A} (i : nat) (x : A) (l : list A) {struct l} : list A :=
   match l, i with
   | [], _ => []
@@ -152,7 +166,7 @@ Inductive op :=
 | OParse (fs : list xin)
 | OCopy (r : nat)
 | ODeepCopy (r : nat)
-| OUpdate (dst src : nat)
+| OUpdate (dst src : nat) (ov : list (option Z))
 | OWrite (r : nat) (path : list nat) (k : nat) (z : Z).
 
 Definition build (s : state) (ps : list ptree) : state :=
@@ -192,10 +206,10 @@ Definition step (c : cfg) (s : state) (o : op) : state :=
                    | None => s
                    | Some rec => build s (map (deep_p (hp s)) rec)
                    end
-  | OUpdate dst src =>
+  | OUpdate dst src ov =>
       match nth_error (insts s) dst, nth_error (insts s) src with
       | Some _, Some rec =>
-          let (h', vs) := alloc_list (map (shallow_p (hp s)) rec) (hp s) in
+          let (h', vs) := alloc_list (upd_list (hp s) ov rec) (hp s) in
           mkState h' (dfl s) (set_nth dst vs (insts s))
       | _, _ => s
       end
@@ -222,10 +236,10 @@ Definition default_value (n : nat) (s : state) (k : nat) : option tree :=
 Definition target (o : op) : option nat :=
   match o with
   | OWrite r _ _ _ => Some r
-  | OUpdate d _ => Some d
+  | OUpdate d _ _ => Some d
   | _ => None
   end.
-Definition is_update (o : op) : bool := match o with OUpdate _ _ => true | _ => false end.
+Definition is_update (o : op) : bool := match o with OUpdate _ _ _ => true | _ => false end.
 Definition no_update (ops : list op) : Prop := forallb (fun o => negb (is_update o)) ops = true.
 
 (* ---------------------------------------------------------------- boolean twins / executable checks *)
